@@ -309,8 +309,33 @@ def convex_polygon(rng, n):
 
 
 # ------------------------------------------------------------------ non-disks
-def non_disk(rng):
-    k = rng.choice(["tetra", "octa", "annulus", "two", "torus", "isolated", "disk+tetra"])
+NON_DISK_KINDS = ["punctured-torus", "annulus", "tetra", "two", "torus", "octa", "isolated", "disk+tetra"]
+
+
+def torus_faces(a, b):
+    f = []
+    for i in range(a):
+        for j in range(b):
+            p, q, r, s = i * b + j, ((i + 1) % a) * b + j, ((i + 1) % a) * b + (j + 1) % b, i * b + (j + 1) % b
+            f += [[p, q, r], [p, r, s]]
+    return f
+
+
+def non_disk(rng, k=None):
+    k = k or rng.choice(NON_DISK_KINDS)
+    if k == "punctured-torus":            # ONE border cycle, one handle: chi = -1
+        a, b = rng.randint(3, 4), rng.randint(3, 4)
+        v = [[(2 + math.cos(2 * math.pi * j / b)) * math.cos(2 * math.pi * i / a),
+              (2 + math.cos(2 * math.pi * j / b)) * math.sin(2 * math.pi * i / a), math.sin(2 * math.pi * j / b)]
+             for i in range(a) for j in range(b)]
+        f = torus_faces(a, b)
+        f.pop(rng.randrange(len(f)))
+        return k, [[q64(x) for x in p] for p in v], f
+    if k == "sphere-3-holes":             # octahedron minus three pairwise non-adjacent... faces sharing no edge: chi = -1
+        v = [[1, 0, 0], [-1, 0, 0], [0, 1, 0], [0, -1, 0], [0, 0, 1], [0, 0, -1]]
+        f = [[0, 2, 4], [2, 1, 4], [1, 3, 4], [3, 0, 4], [2, 0, 5], [1, 2, 5], [3, 1, 5], [0, 3, 5]]
+        f = [f[1], f[3], f[4], f[6], f[0]]          # 5 faces: V=6, E=12, F=5 -> chi = -1
+        return k, [[q64(x) for x in p] for p in v], f
     if k == "tetra":
         v = [[0, 0, 0], [1, 0, 0], [0, 1, 0], [0, 0, 1]]
         f = [[0, 2, 1], [0, 1, 3], [1, 2, 3], [2, 0, 3]]
